@@ -18,6 +18,11 @@ class Violation(Exception):
     pass
 
 
+def fail(kind):
+    # one raise site for every failure: Hypothesis tells failures apart by the innermost raising line
+    raise Violation(kind)
+
+
 def main():
     ap = argparse.ArgumentParser()
     ap.add_argument("--prop", required=True)
@@ -35,14 +40,23 @@ def main():
     stats = common.Stats()
     workdir = os.path.join(common.BUILD, "tmp", a.prop, "w%d" % a.worker)
     t0 = time.time()
-    state = {"last_fail": None, "skipped": 0, "failing_calls": 0}
+    state = {"last_fail": None, "skipped": 0, "failing_calls": 0, "long_spent": 0.0}
+    # long-stall runs: the runner names the stall schedules in which somebody was busy-waiting while a thread was held
+    # ("long_candidates"). Such a schedule is run again with the thread held for up to LONG_STALL_POINTS scheduling points
+    # (7-25 s of real time). Quick tier: at most one per worker and not in the last 20 s of its budget; thorough tier: up to 15 % of
+    # the worker's budget.
+    long_allow = 1.0 if tier == "quick" else 0.15 * a.budget
     wseed = (a.seed * 1000003 + a.worker * 7919 + 17) & 0x7FFFFFFF
     n_examples = max(1, spec.examples(tier) // a.nworkers)
     parts = spec.parts(tier)  # list of (name, strategy, runner args fn)
+    # the parts run one after the other, each for its share of the time; every worker starts with a different one (long-stall runs
+    # are only started early in a worker's budget, so each part has to come first somewhere)
+    rot = a.worker % len(parts)
+    parts = parts[rot:] + parts[:rot]
 
     result = {"violation": None}
     for part_i, part in enumerate(parts):
-        pname, strat, nsched, extra = part["name"], props.dirty_wrap(part["strategy"]), part["nsched"], part.get("args", [])
+        pname, strat, nsched, extra = part["name"], props.dirty_wrap(part["strategy"], tier), part["nsched"], part.get("args", [])
         share = part.get("share", 1.0 / len(parts))
         n_ex = max(1, int(n_examples * share))
         budget_end = t0 + a.budget * sum(p.get("share", 1.0 / len(parts)) for p in parts[: part_i + 1])
@@ -52,6 +66,11 @@ def main():
                 state["skipped"] += 1
                 return
             text = common.render_case(case)
+            if state.get("long_fail") is not None:
+                # a violation found by a long-stall run (seconds per execution) is not shrunk: only that exact program keeps failing
+                if text == state["long_fail"]:
+                    fail(state["last_fail"]["violation"]["kind"])
+                return
             base_seed = (wseed * 31 + int(common.case_hash(text), 16)) & 0x7FFFFFFFFFFF
             # a case may cap its own number of schedules and add runner arguments (very large programs)
             ns = min(nsched, case["max_sched"]) if "max_sched" in case else nsched
@@ -59,6 +78,20 @@ def main():
             res = common.run_runner(part.get("binary", spec.binary), text, workdir, ["--base-seed", base_seed, "--nsched", ns] + cextra)
             stats.add(text, res, classes=case.get("classes", ()))
             v = res.get("violation")
+            cands = res.get("long_candidates") or []
+            if (cands and not v and state["last_fail"] is None and state["long_spent"] < long_allow and "args" not in case
+                    and time.time() + (25 if tier == "quick" else 40) < t0 + a.budget):
+                t_run = time.time()
+                largs = ["--only", cands[0], "--long-stall", props.LONG_STALL_POINTS]
+                res2 = common.run_runner(part.get("binary", spec.binary), text, workdir, ["--base-seed", base_seed, "--nsched", ns] + cextra + largs)
+                state["long_spent"] += time.time() - t_run
+                if os.environ.get("VERIF_LONG_DEBUG"):
+                    with open(os.environ["VERIF_LONG_DEBUG"], "a") as lf_:
+                        lf_.write("%s w%d %.1fs at %.1fs points=%s labels=%s\n%s\n" % (a.prop, a.worker, time.time() - t_run, t_run - t0, res2.get("points"), {k: v for k, v in res2.get("labels", {}).items() if "stall" in k}, text))
+                stats.add_long(res2)
+                if res2.get("violation"):
+                    v = res2["violation"]
+                    cextra = cextra + largs
             tol = res.get("tolerated_freed_reads") or {}
             unknown_site = False
             for site in tol.get("sites", []):
@@ -80,7 +113,9 @@ def main():
                 state["last_fail"] = {"case": case, "text": text, "base_seed": base_seed, "nsched": ns, "violation": v, "part": pname, "args": cextra,
                                       "binary": part.get("binary", spec.binary)}
                 state["failing_calls"] += 1
-                raise Violation(v["kind"])
+                if str(v.get("strategy", "")).startswith("long_"):
+                    state["long_fail"] = text
+                fail(v["kind"])
 
         # the time budget decides: Hypothesis runs in chunks (each a seeded run of its own) until the part's share of the budget is
         # used up or its example count is reached - no examples are generated only to be skipped
@@ -92,7 +127,7 @@ def main():
                 n = min(chunk, n_ex - done)
                 test = settings(max_examples=n, database=None, deadline=None, derandomize=False, report_multiple_bugs=False,
                                 suppress_health_check=list(HealthCheck), phases=[Phase.generate, Phase.shrink], verbosity=Verbosity.quiet)(
-                    seed(wseed + part_i * 100003 + k * 7919)(given(strat)(body)))
+                    seed(wseed + ((part_i + rot) % len(parts)) * 100003 + k * 7919)(given(strat)(body)))
                 test()
                 done += n
                 k += 1
